@@ -4,6 +4,8 @@ import Dashu.Model.NT.ModInvLarge
 import Dashu.Model.NT.ModLargeK
 import Dashu.Model.NT.ModAllK
 import Dashu.Model.NT.ModPowK
+import Dashu.Model.NT.ModAddK
+import Dashu.Model.NT.ModInvLargeB
 import Dashu.Model.NT.ModTags
 import Dashu.Model.NT.Gcd
 import Dashu.Model.NT.Lehmer
@@ -94,29 +96,29 @@ def dispatchC13 : Dispatch := fun W op args =>
   | "m.reduce", [m, a] => do
     let m ← parseNat m; let a ← parseInt a
     pure <| withRing W m fun r =>
-      let e := reduceIntKL W r a
+      let e := reduceIntKA W r a
       chk ("ok " ++ resStr e ++ " " ++ natToHex e.modulus ++ validMark e)
           ("ok " ++ natToHex (emodNat a m) ++ " " ++ natToHex m) ++ ann (redTag W r a)
   | "m.add", [m, a, b] | "m.sub", [m, a, b] | "m.mul", [m, a, b] => do
     let m ← parseNat m; let a ← parseInt a; let b ← parseInt b
     let o := (op.drop 2).toString
     pure <| withRing W m fun r =>
-      let x := reduceIntKL W r a; let y := reduceIntKL W r b
+      let x := reduceIntKA W r a; let y := reduceIntKA W r b
       let res := match o with
-        | "add" => x.add y | "sub" => x.sub y | _ => x.mulKL W y
+        | "add" => x.addKL W y | "sub" => x.subBothKL W y | _ => x.mulKL W y
       chk (exc (fun e => resStr e ++ validMark e) res) ("ok " ++ natToHex (emodNat (binSpec o a b) m))
         ++ ann (if o = "mul" then mulTag W r x.raw y.raw
                 else o ++ "." ++ kindStr r.kind ++ (if o = "add" then (if x.raw + y.raw ≥ r.M then ".sub" else ".nosub")
-                                                     else (if x.raw ≥ y.raw then ".noborrow" else ".borrow")))
+                                                     else (if x.raw ≥ y.raw then ".noborrow" else ".borrow")) ++ addArmTag W r o x.raw y.raw)
   | "m.div", [m, a, b] => do
     let m ← parseNat m; let a ← parseInt a; let b ← parseInt b
     pure <| withRing W m fun r =>
-      let x := reduceIntKL W r a; let y := reduceIntKL W r b
-      let model := exc (fun e => resStr e ++ validMark e) (x.divKA W y)
+      let x := reduceIntKA W r a; let y := reduceIntKA W r b
+      let model := exc (fun e => resStr e ++ validMark e) (x.divKB W y)
       -- spec: defined iff gcd(b, m) = 1, and then q is the unique residue with q·b ≡ a
       let spec :=
         if Nat.gcd (emodNat b m) m = 1 then
-          match x.divKA W y with
+          match x.divKB W y with
           | .ok q => if (q.residue * emodNat b m) % m = emodNat a m ∧ q.residue < m then "ok " ++ resStr q
                      else "ok <q with q*b = a mod m>"
           | .error _ => "ok <q with q*b = a mod m>"
@@ -125,23 +127,25 @@ def dispatchC13 : Dispatch := fun W op args =>
   | "m.neg", [m, a] => do
     let m ← parseNat m; let a ← parseInt a
     pure <| withRing W m fun r =>
-      let e := (reduceIntKL W r a).neg
-      chk ("ok " ++ resStr e ++ validMark e) ("ok " ++ natToHex (emodNat (-a) m))
+      let x := reduceIntKA W r a
+      let e := x.negKL W
+      chk ("ok " ++ resStr e ++ validMark e) ("ok " ++ natToHex (emodNat (-a) m)) ++ ann ("neg." ++ kindStr r.kind ++ addArmTag W r "neg" x.raw 0)
   | "m.dbl", [m, a] => do
     let m ← parseNat m; let a ← parseInt a
     pure <| withRing W m fun r =>
-      let e := (reduceIntKL W r a).dbl
-      chk ("ok " ++ resStr e ++ validMark e) ("ok " ++ natToHex (emodNat (2 * a) m))
+      let x := reduceIntKA W r a
+      let e := x.dblBothKL W
+      chk ("ok " ++ resStr e ++ validMark e) ("ok " ++ natToHex (emodNat (2 * a) m)) ++ ann ("dbl." ++ kindStr r.kind ++ addArmTag W r "dbl" x.raw x.raw)
   | "m.sqr", [m, a] => do
     let m ← parseNat m; let a ← parseInt a
     pure <| withRing W m fun r =>
-      let x := reduceIntKL W r a
+      let x := reduceIntKA W r a
       let e := x.sqrKL W
       chk ("ok " ++ resStr e ++ validMark e) ("ok " ++ natToHex (emodNat (a * a) m)) ++ ann ("sqr." ++ mulTag W r x.raw x.raw)
   | "m.pow", [m, a, e] => do
     let m ← parseNat m; let a ← parseInt a; let e ← parseNat e
     pure <| withRing W m fun r =>
-      let x := (reduceIntKL W r a).powKL W e
+      let x := (reduceIntKA W r a).powKL W e
       -- spec by square-and-multiply on residues (a^e itself would be astronomically large)
       let base := emodNat a m
       let spec := Id.run do
@@ -155,14 +159,14 @@ def dispatchC13 : Dispatch := fun W op args =>
   | "m.inv", [m, a] => do
     let m ← parseNat m; let a ← parseInt a
     pure <| withRing W m fun r =>
-      let x := reduceIntKL W r a
-      let model := match x.invKP W with
+      let x := reduceIntKA W r a
+      let model := match x.invKB W with
         | .error k => "panic " ++ k.name
         | .ok none => "ok none"
         | .ok (some i) => "ok some " ++ resStr i ++ validMark i
       let spec :=
         if Nat.gcd (emodNat a m) m = 1 then
-          match x.invKP W with
+          match x.invKB W with
           | .ok (some i) => if (i.residue * emodNat a m) % m = 1 % m ∧ i.residue < m then "ok some " ++ resStr i
                       else "ok some <x with a*x = 1 mod m>"
           | _ => "ok some <x with a*x = 1 mod m>"
@@ -171,18 +175,18 @@ def dispatchC13 : Dispatch := fun W op args =>
   | "m.eq", [m, a, b] => do
     let m ← parseNat m; let a ← parseInt a; let b ← parseInt b
     pure <| withRing W m fun r =>
-      chk (exc boolStr ((reduceIntKL W r a).beq (reduceIntKL W r b)))
+      chk (exc boolStr ((reduceIntKA W r a).beq (reduceIntKA W r b)))
           ("ok " ++ boolStr (emodNat a m == emodNat b m))
   | "m.mix", [o, m1, m2, a, b] => do
     let m1 ← parseNat m1; let m2 ← parseNat m2; let a ← parseInt a; let b ← parseInt b
     match Ring.new W 1 m1, Ring.new W 2 m2 with
     | .ok r1, .ok r2 =>
-      let x := reduceIntKL W r1 a; let y := reduceIntKL W r2 b
+      let x := reduceIntKA W r1 a; let y := reduceIntKA W r2 b
       let model ← match o with
-        | "add" => some (exc resStr (x.add y))
-        | "sub" => some (exc resStr (x.sub y))
+        | "add" => some (exc resStr (x.addKL W y))
+        | "sub" => some (exc resStr (x.subBothKL W y))
         | "mul" => some (exc resStr (x.mulKL W y))
-        | "div" => some (exc resStr (x.divKA W y))
+        | "div" => some (exc resStr (x.divKB W y))
         | "eq" => some (exc boolStr (x.beq y))
         | _ => none
       let spec := if o = "div" ∧ Nat.gcd (emodNat b m2) m2 ≠ 1 then "panic NonInvertible" else "panic DifferentRings"
@@ -218,12 +222,12 @@ def dispatchC13 : Dispatch := fun W op args =>
     let m ← parseNat m; let a ← parseNat a
     pure <| withRing W m fun r =>
       let x := rawOfNatKL W r a
-      let model := match invRawKP W r x with
+      let model := match invRawKB W r x with
         | .error k => "panic " ++ k.name
         | .ok none => "ok none"
         | .ok (some t) => "ok some " ++ natToHex (t / 2 ^ r.k) ++ " " ++ boolStr (rCheck r t)
       let spec := if Nat.gcd (a % m) m = 1 then
-          (match invRawKP W r x with
+          (match invRawKB W r x with
            | .ok (some t) => if ((t / 2 ^ r.k) * (a % m)) % m = 1 % m then "ok some " ++ natToHex (t / 2 ^ r.k) ++ " true"
                        else "ok some <inverse>"
            | _ => "ok some <inverse>")
